@@ -104,11 +104,18 @@ Definition erase_cb (fx : bool) (p : name * term) (m : maps) : option maps :=
 Definition push_scope (g : bool) (s : tn) : tn :=
   if g then s else mk_tn (sv_push_scope (tn_scoped s)) (tn_maps s).
 
-Definition pop_scope (fx g : bool) (s : tn) : option tn :=
+(* [fs] selects the guarded variant: popScope does nothing when no scope is open (the matching
+   pushScope was skipped because declarations were global then); [fs = false] is the code as it is,
+   where this situation is undefined behaviour. *)
+Definition pop_scope (fx fs g : bool) (s : tn) : option tn :=
   if g then Some s
-  else match sv_pop_scope (erase_cb fx) (tn_scoped s) (tn_maps s) with
-       | Some (v, m) => Some (mk_tn v m)
-       | None => None
+  else match sv_limits (tn_scoped s) with
+       | [] => if fs then Some s else None
+       | _ :: _ =>
+           match sv_pop_scope (erase_cb fx) (tn_scoped s) (tn_maps s) with
+           | Some (v, m) => Some (mk_tn v m)
+           | None => None
+           end
        end.
 
 (* direct call of the protected eraseTermName (reachable only from a friend / subclass; the scoped
@@ -125,22 +132,22 @@ Inductive op := Insert (n : name) (t : term) | PushScope | PopScope | SetGlobal 
 Definition st := (tn * bool)%type.          (* the object and the configuration flag it reads *)
 Definition st_init : st := (tn_init, false).
 
-Definition step (fx : bool) (s : st) (o : op) : option st :=
+Definition step (fx fs : bool) (s : st) (o : op) : option st :=
   let (x, g) := s in
   match o with
   | Insert n t => Some (fst (try_insert n t x), g)
   | PushScope => Some (push_scope g x, g)
-  | PopScope => match pop_scope fx g x with Some x' => Some (x', g) | None => None end
+  | PopScope => match pop_scope fx fs g x with Some x' => Some (x', g) | None => None end
   | SetGlobal b => Some (x, b)
   end.
 
-Fixpoint run_from (fx : bool) (s : st) (ops : list op) : option st :=
+Fixpoint run_from (fx fs : bool) (s : st) (ops : list op) : option st :=
   match ops with
   | [] => Some s
-  | o :: r => match step fx s o with Some s' => run_from fx s' r | None => None end
+  | o :: r => match step fx fs s o with Some s' => run_from fx fs s' r | None => None end
   end.
 
-Definition run (fx : bool) (ops : list op) : option st := run_from fx st_init ops.
+Definition run (fx fs : bool) (ops : list op) : option st := run_from fx fs st_init ops.
 
 (* ---- abstract specification: a stack of scopes, innermost first ------------------------------ *)
 Notation scope := (list (name * term)) (only parsing).
@@ -151,7 +158,7 @@ Definition spec_all (sp : spec) : list (name * term) := concat (rev (sp_top sp :
 Definition spec_lookup (sp : spec) (n : name) : option term := al_find n (spec_all sp).
 Definition spec_has (sp : spec) (n : name) : bool := al_has n (spec_all sp).
 
-Definition spec_step (sp : spec) (o : op) : option spec :=
+Definition spec_step (fs : bool) (sp : spec) (o : op) : option spec :=
   match o with
   | Insert n t =>
       if spec_has sp n then Some sp
@@ -161,19 +168,19 @@ Definition spec_step (sp : spec) (o : op) : option spec :=
   | PopScope =>
       if sp_global sp then Some sp
       else match sp_rest sp with
-           | [] => None
+           | [] => if fs then Some sp else None
            | sc :: r => Some (mk_spec sc r false)
            end
   | SetGlobal b => Some (mk_spec (sp_top sp) (sp_rest sp) b)
   end.
 
-Fixpoint spec_run_from (sp : spec) (ops : list op) : option spec :=
+Fixpoint spec_run_from (fs : bool) (sp : spec) (ops : list op) : option spec :=
   match ops with
   | [] => Some sp
-  | o :: r => match spec_step sp o with Some sp' => spec_run_from sp' r | None => None end
+  | o :: r => match spec_step fs sp o with Some sp' => spec_run_from fs sp' r | None => None end
   end.
 
-Definition spec_run (ops : list op) : option spec := spec_run_from spec_init ops.
+Definition spec_run (fs : bool) (ops : list op) : option spec := spec_run_from fs spec_init ops.
 
 (* abstraction function *)
 Definition abs (s : st) : spec :=
